@@ -8,12 +8,14 @@ SRC = "/tmp/wt-out/refac"
 DST = "/verif/refactorings"
 PROPS = subprocess.run(["/venv/bin/python", "-c", "import sys; sys.path.insert(0,'/verif'); from pmcsa import registry; print(' '.join(sorted(registry.CLAIMED)))"], capture_output=True, text=True).stdout.split()
 def harvest():
-    if not os.path.isdir(SRC): return
-    for w in sorted(os.listdir(SRC)):
-        for r in sorted(os.listdir(os.path.join(SRC, w))):
-            d = os.path.join(SRC, w, r)
+    # round 1: /tmp/wt-out/refac/R0x/rN -> R0xrN ; round 2: /tmp/wt-out/refac2/R0x/rN -> S0xrN
+    for src, pre in ((SRC, "R"), (SRC + "2", "S")):
+        if not os.path.isdir(src): continue
+        for w in sorted(os.listdir(src)):
+          for r in sorted(os.listdir(os.path.join(src, w))):
+            d = os.path.join(src, w, r)
             if os.path.exists(os.path.join(d, "patch.diff")):
-                dst = os.path.join(DST, w + r)
+                dst = os.path.join(DST, pre + w[1:] + r)
                 os.makedirs(dst, exist_ok=True)
                 shutil.copy(os.path.join(d, "patch.diff"), dst)
                 if os.path.exists(os.path.join(d, "note.md")): shutil.copy(os.path.join(d, "note.md"), dst)
